@@ -29,14 +29,22 @@ LEVEL_TEXT = ("Theorems (Lean 4, Ccp.Props.C06, for all states and payloads of t
               "by 1 + |all_children|); replace_text / re_sub change position p only (List.set), an unchanged re_sub is a no-op; a successful "
               "append_to_family inserts exactly one line at the computed index, for a child-level append to a target with children that index "
               "is family_endpoint + 1 (directly after the last descendant); every refused operation leaves the whole state unchanged; options "
-              "never change and with auto_commit off only commit replaces the tree. With auto_commit on and ignore_blank_lines the texts are "
+              "never change and with auto_commit off only commit replaces the tree. Parent links (configs without banner/macro starts, "
+              "auto_commit on, blank lines kept, committed state): a child-level append_to_family to a target with children puts the line at "
+              "family_endpoint+1, the new line's parent is the target and every existing line keeps its parent (index-shifted), provided the "
+              "payload is not a comment and every config-line child of the target is indented at least as deep as the payload (automatic for "
+              "indent width 1); delete leaves every surviving line's parent at the new position of its old parent; both with the one "
+              "exclusion of a comment directly below the insertion point / below a deleted line (its attachment follows C02's "
+              "comment-under-a-deeper-line rule; counterexamples are given). With auto_commit on and ignore_blank_lines the texts are "
               "one bootstrap of the auto_commit-off result: a sublist of it keeping every non-blank line. The model is tied to the code by "
               "differential runs of whole histories (texts after every step, tree after every commit).")
 LEVEL_NOTE = ("Trusted: Lean kernel, standard axioms, harness. Regexes are oracle data (rows / substituted texts computed with re by the "
               "harness); str.replace is modelled for a non-empty 'before'. Partial: the same-indent append_to_family placement is proved as the "
               "code does it (self + |children|, known finding F10b), not as the property wants it; for a childless target the index is "
-              "characterised through the code's own helpers (last sibling / last_family_linenum / last_parent_linenums[0]). Not proved: that "
-              "append_to_family leaves the parent of every existing line unchanged after the commit (it does not in the F10b case).")
+              "characterised through the code's own helpers (last sibling / last_family_linenum / last_parent_linenums[0]). The parent-preservation "
+              "theorems are proved from a specification-level lemma (specParent under insertion of one line / removal of a set of lines) and "
+              "do not cover configs with banner or macro starts, ignore_blank_lines, nxos payloads when some config-line child of the target "
+              "is indented less than the payload, childless targets, or the same-indent placement (F10b, where parents do change).")
 ASSUMPTIONS = ["object handles are used only on a committed state", "auto_indent_width is the syntax default (1, or 2 for nxos)"]
 TRUSTED = ["regex oracle rows", "str.replace modelled for non-empty 'before'"]
 EXHAUSTIVE = {"quick": False, "thorough": False}
